@@ -259,20 +259,47 @@ def gen_fromfile(rng):
             " R " + " ".join(rows) + " A " + " ".join(done)).replace("  ", " ")
 
 
-def _files(rng, kind, nmax=3, subdirs=True):
+def rec_name(rng, f, i):
+    """record names: plain, with a description, repeated, EMPTY (`>` alone), very long"""
+    r = rng.random()
+    if r < 0.08:
+        return ""
+    if r < 0.12:
+        return "long " + "n" * rng.choice([300, 300, 3000])
+    return rng.choice([f"r{i}", f"r{i} some description", "dup", f"s{f}_{i}|x"])
+
+
+def _files(rng, kind, nmax=3, subdirs=True, stdin_ok=False):
     toks, used = [], set()
     pool = ["a.fa", "b.fasta", "in put.fa", "c", "d.fa"] + (["sub/e.fa"] if subdirs else [])
     for f in range(rng.choice(list(range(1, nmax + 1)))):
         fname = rng.choice(pool)
+        if stdin_ok and "-" not in used and rng.random() < 0.02:        # (a child interpreter per such op: ~2 s)
+            fname = "-"                                   # standard input
         if fname in used:
             continue
         used.add(fname)
-        toks += ["F", hx(fname)]
+        toks += ["F", "2d" if fname == "-" else hx(fname)]
+        last = None
         for i in range(rng.choice([0, 1, 1, 2, 3])):
-            name = rng.choice([f"r{i}", f"r{i} some description", "dup", f"s{f}_{i}|x"])
+            name = rec_name(rng, f, i)
             seq = prot_record(rng, 4, 40) if kind == "protein" else dna_record(rng, 6, 60).replace("-", "N")
+            if last and rng.random() < 0.15:
+                name, seq = last                         # the same record twice (name and sequence)
+            last = (name, seq)
             toks.append(hx(name) + ":" + hx(seq))
     return toks or ["F", hx("a.fa")]
+
+
+def more_flags(rng, mode):
+    """--license other than CC0, -f/--force, and an output file that exists before the command runs"""
+    if rng.random() < 0.08:
+        mode += "+lic"
+    if ("+dir" in mode or "+cwd" in mode) and rng.random() < 0.3:
+        mode += "+pre"
+    if rng.random() < 0.15:
+        mode += "+force"
+    return mode
 
 
 def _mode(rng, allow_merge_rand=True):
@@ -313,8 +340,14 @@ def gen_sk(rng):
         mode += "+fromfile"
     if rng.random() < 0.1:
         mode += "+rand"
+    mode = more_flags(rng, mode)
+    # the subcommand as typed: `rna`, `nucleotide`, `nt` are declared aliases of `dna`; `aa`, `prot` of `protein`
+    if sub == "dna":
+        sub = rng.choice(["dna"] * 6 + ["rna", "rna", "nucleotide", "nt"])
+    elif sub == "protein":
+        sub = rng.choice(["protein"] * 4 + ["aa", "prot"])
     return (f"sk {sub} {dm} {mode} P " + " ".join(hx(x) for x in strs) + " " +
-            " ".join(_files(rng, "protein" if sub == "protein" else "dna"))).replace("  ", " ")
+            " ".join(_files(rng, "protein" if sub in ("protein", "aa", "prot") else "dna", stdin_ok="+fromfile" not in mode))).replace("  ", " ")
 
 
 def gen_cmp(rng):
@@ -331,8 +364,10 @@ def gen_cmp(rng):
     mode = _mode(rng)
     if rng.random() < 0.15 and not mode.startswith("merge") and any(f in mode for f in ("+dir", "+cwd", "+newdir")):
         mode += "+rand"          # --randomize: only the per-file layouts are order-independent
+    if "+rand" not in mode:
+        mode = more_flags(rng, mode)         # (+pre names the FIRST listed input: not with a shuffled list)
     return (f"cmp {ks} {fl[0]} {fl[1]} {fl[2]} {fl[3]} {num} {sc} {int(rng.random() < 0.3)} {rng.choice([42, 42, 7])} {inprot} "
-            f"{mode} " + " ".join(_files(rng, "protein" if inprot else "dna")))
+            f"{mode} " + " ".join(_files(rng, "protein" if inprot else "dna", stdin_ok=True)))
 
 
 def gen_names(rng):
@@ -352,6 +387,7 @@ def gen_names(rng):
         mode += "+rand"
     if rng.random() < 0.2:
         mode += "+check"
+    mode = more_flags(rng, mode)
     k = rng.choice([3, 5, 7])
     toks = []
     used = set()
@@ -362,9 +398,13 @@ def gen_names(rng):
         used.add(fname)
         toks += ["F", hx(fname)]
         nrec = rng.choice([0, 1, 1, 2, 3])
+        last = None
         for i in range(nrec):
-            name = rng.choice([f"r{i}", f"r{i} some description", "dup", f"s{f}_{i}|x"])
-            toks.append(hx(name) + ":" + hx(dna_record(rng, 4, 40).replace("-", "N")))
+            name, seq = rec_name(rng, f, i), dna_record(rng, 4, 40).replace("-", "N")
+            if last and rng.random() < 0.15:
+                name, seq = last
+            last = (name, seq)
+            toks.append(hx(name) + ":" + hx(seq))
     if not toks:
         toks = ["F", hx("a.fa")]
     return f"names {mode} {k} " + " ".join(toks)
@@ -396,6 +436,8 @@ def gen_case(rng, flavour):
             l = gen_feed(rng)
             if l:
                 lines.append(l)
+                if rng.random() < 0.15:
+                    lines.append("sigeq" + l[4:])          # the same tokens: == / != between the signatures
             continue
         cmd_mol = rng.choice(MOLS + ["dna", "-"])
         if flavour == "grammar" and rng.random() < 0.2:
@@ -500,8 +542,11 @@ def plain_reading(pstr, cmd_mol):
 HFN = {"dna": 1, "protein": 2, "dayhoff": 3, "hp": 4}
 
 
-def _units(mode, files):
+def _units(mode, files, flags=()):
     """(name, filename) of every signature set the documentation promises, in order; None = nothing promised"""
+    if "pre" in flags and "force" not in flags and ("dir" in flags or "cwd" in flags) and not mode.startswith("merge"):
+        files = files[1:]                      # "skipping - already done" unless -f
+    files = [("" if f == "-" else f, recs) for f, recs in files]        # standard input has no file name
     if mode == "singleton":
         return [(n, f) for f, recs in files for n in recs]
     if mode == "first":
@@ -531,6 +576,31 @@ def oracle(case, impl):
     for idx, (op, obs) in enumerate(zip(case, impl)):
         w = op.split()
         if not w:
+            continue
+        if obs.startswith("view-mismatch"):
+            # two routes to one fact about one object disagree, or an object handed out earlier changed later
+            bad.append((idx, "C14:sketch:views-disagree", f"`{op[:100]}`: {obs[14:]}"))
+            continue
+        if w[0] == "sk" and w[1] in ("rna", "nucleotide", "nt", "aa", "prot") and obs == "err AttributeError":
+            bad.append((idx, "C14:cli:alias-crashes", f"`sourmash sketch {w[1]}`, a declared alias of `sketch "
+                             f"{'protein' if w[1] in ('aa', 'prot') else 'dna'}`, dies with AttributeError before sketching anything"))
+            continue
+        if w[0] in ("sk", "cmp", "names") and "lic" in (w[3] if w[0] == "sk" else w[11] if w[0] == "cmp" else w[1]).split("+")[1:]:
+            if obs.startswith("ok"):
+                bad.append((idx, "C14:cli:license-accepted", f"`{op[:80]}`: a --license other than CC0 was accepted: {obs[:120]}"))
+            continue
+        if w[0] == "sigeq" and obs.startswith("eq "):
+            f = dict(t.split("=") for t in obs.split()[1:])
+            n = int(f["n"])
+            want = {"tt": "True", "ta": "True", "at": "True", "ne": "False",
+                    "ae": "False" if n else "True", "te": "False" if n else "True"}
+            wrong = {k2: f[k2] for k2 in want if f[k2] != want[k2]}
+            if wrong:
+                names = {"tt": "factory-built == factory-built (same records)", "ta": "factory-built == directly created (same records)",
+                         "at": "directly created == factory-built (same records)", "ae": "EMPTY directly created == fed factory-built",
+                         "te": "fed factory-built == unfed factory-built", "ne": "factory-built != factory-built (same records)"}
+                bad.append((idx, "C14:sketch:signature-eq", "SourmashSignature.__eq__ with a tree-backed operand (what the sketch factory builds), "
+                                 f"{n} hashes fed: " + "; ".join(f"{names[k2]} answered {v}, expected {want[k2]}" for k2, v in wrong.items())))
             continue
         if w[0] == "factory" and obs.startswith("ok"):
             # one signature per -p group (per k when split), one sketch per requested (k, moltype)
@@ -582,7 +652,12 @@ def oracle(case, impl):
                     cur[1].append(unhx(t.split(":")[0]))
             got = [tuple(unhx(x) for x in g.split("|")[1:3]) for g in obs[3:].split(";")] if obs[3:] else []
             if any(f in oflags for f in ("dir", "cwd", "newdir")):
-                continue          # sorted by output path: the order check below is for the single-output mode
+                # sorted by output path: compare as multisets
+                exp = _units(mode, files, oflags)
+                if sorted(got) != sorted((n, f) for n, f in exp):
+                    bad.append((idx, "C14:sketch:wrong-names", f"`sketch` in mode {mode.split(':')[0]} {oflags} on files {files} wrote signatures "
+                                                                f"(name, filename) = {sorted(got)}; the documentation promises {sorted(exp)}"))
+                continue
             if mode == "singleton":
                 exp = [(n, f) for f, recs in files for n in recs]
             elif mode == "first":
@@ -620,7 +695,7 @@ def oracle(case, impl):
                 sk = [(k, HFN[m]) for k in ks for m in mols]
                 mtok, ftoks = w[11], w[12:]
             mode = mtok.split("+")[0]
-            units = _units(mode, _files_of(ftoks))
+            units = _units(mode, _files_of(ftoks), mtok.split("+")[1:])
             exp = sorted((n, f, k, h) for n, f in units for k, h in sk)
             got = []
             for g in [x for x in obs[3:].split(";") if x]:
